@@ -28,17 +28,23 @@ TRACE = []
 _TRACERS = {}
 
 
+def kind_of(mwid):
+    """'A0:K1' -> 'K1' (the middleware type); ids without a kind have a type of their own"""
+    return mwid.split(':', 1)[1] if ':' in mwid else mwid
+
+
 def tracer(mwid):
-    """a middleware (own type per id) that records its id whenever its request function runs"""
+    """a middleware instance that records its id whenever its request function runs; its type is kind_of(mwid), so two
+    applications may carry different instances of one (unique) type"""
     from clastic import Middleware
-    if mwid not in _TRACERS:
-        def request(next, _id=mwid):
-            TRACE.append(_id)
-            return next()
-        cls = type('C11MW_' + mwid.replace('.', '_'), (Middleware,), {})
-        _TRACERS[mwid] = (cls, request)
-    cls, request = _TRACERS[mwid]
-    inst = cls()
+    k = kind_of(mwid)
+    if k not in _TRACERS:
+        _TRACERS[k] = type('C11MW_' + k.replace('.', '_'), (Middleware,), {})
+    inst = _TRACERS[k]()
+
+    def request(next, _id=mwid):
+        TRACE.append(_id)
+        return next()
     inst.request = request
     return inst
 
@@ -180,8 +186,9 @@ class Sim(object):
         ctx = self.ctx
         if k == 'new_app':
             _, mode, clash = op[:3]
-            has_mw = bool(op[3]) if len(op) > 3 else False
-            mwid = 'A%d' % len(self.apps) if has_mw else None
+            has_mw = int(op[3]) if len(op) > 3 else 0
+            # 0: none; 1: a type of its own; 2, 3: an instance of one of two types shared between applications
+            mwid = None if not has_mw else 'A%d' % len(self.apps) if has_mw == 1 else 'A%d:K%d' % (len(self.apps), has_mw)
             app = Application(slash_mode=mode, resources={'clash': 'c'} if clash else {}, middlewares=[tracer(mwid)] if mwid else [])
             self.apps.append({'app': app, 'table': [], 'mode': mode, 'clash': clash, 'requested': False, 'failed_add': False, 'mw': mwid})
         elif k == 'new_route':
@@ -296,7 +303,7 @@ class Sim(object):
             pfx = prefix.rstrip('/')
             outer = [self.apps[b]['mw']] if self.apps[b].get('mw') else []
             self.insert(b, index, [self.entry(e.rid, pfx + e.pattern, e.methods, e.beh, self.apps[b]['mode'],
-                                              outer + [m for m in e.chain if m not in outer])   # unique by type: kept once, outermost
+                                              outer + [m for m in e.chain if kind_of(m) not in [kind_of(o) for o in outer]])   # unique by type: kept once, the outermost instance
                                    for e in self.apps[a]['table']])
             if self.apps[a]['requested']:
                 self.interesting = True
@@ -359,11 +366,11 @@ def machine():
             self.ctx.current = self.steps
             self.sim.step(op)
 
-        @initialize(mode=st.sampled_from(list(U.MODES)), clash=st.booleans(), mw=st.booleans())
+        @initialize(mode=st.sampled_from(list(U.MODES)), clash=st.booleans(), mw=st.sampled_from([0, 0, 1, 2, 2, 3]))
         def first_app(self, mode, clash, mw):
             self.do(['new_app', mode, clash, mw])
 
-        @rule(mode=st.sampled_from(list(U.MODES)), clash=st.booleans(), mw=st.booleans())
+        @rule(mode=st.sampled_from(list(U.MODES)), clash=st.booleans(), mw=st.sampled_from([0, 0, 1, 2, 2, 3]))
         def new_app(self, mode, clash, mw):
             if len(self.sim.apps) < 4:
                 self.do(['new_app', mode, clash, mw])
